@@ -336,11 +336,14 @@ func (pv *Prov) callDesc(v ssa.Value, idx int, depth int, seen map[ssa.Value]boo
 			}
 			return pv.cap(out)
 		case "min", "max":
-			var parts []string
+			// selects one of its arguments: the same alternatives as `m := a; if b > m { m = b }`
+			out := map[string]bool{}
 			for _, a := range cc.Args {
-				parts = append(parts, strings.Join(setKeys(pv.desc(a, depth-1, seen)), "|"))
+				for s := range pv.desc(a, depth-1, seen) {
+					out[s] = true
+				}
 			}
-			return one(b.Name() + "(" + strings.Join(parts, ",") + ")")
+			return pv.cap(out)
 		}
 		return one("builtin(" + b.Name() + ")")
 	}
